@@ -441,11 +441,15 @@ class Check(object):
         ev = {'property_id': self.pid, 'tier': self.tier, 'seed': self.seed, 'level': level,
               'coverage': cov, 'assumptions': self.assumptions,
               'wall_s': round(time.time() - self.t0, 2), 'violations': len(self.violations) + (1 if rc and not self.violations else 0)}
-        os.makedirs(os.path.join(ROOT, 'evidence'), exist_ok=True)
-        tmp = os.path.join(ROOT, 'evidence', '%s.json.tmp' % self.pid)
+        # evidence/ describes /repo itself; a run pointed at another tree (VERIF_REPO: seeded changes,
+        # builders' scratch trees) leaves it alone and writes under .scratch/
+        evdir = os.path.join(ROOT, 'evidence') if os.path.abspath(REPO) == '/repo' \
+            else os.path.join(SCRATCH, 'evidence-other-tree')
+        os.makedirs(evdir, exist_ok=True)
+        tmp = os.path.join(evdir, '%s.json.tmp' % self.pid)
         with open(tmp, 'w') as f:
             json.dump(ev, f, indent=1, default=repr, ensure_ascii=True)
-        os.replace(tmp, os.path.join(ROOT, 'evidence', '%s.json' % self.pid))
+        os.replace(tmp, os.path.join(evdir, '%s.json' % self.pid))
         cleanup_scratch()
         self.log('%s: %s in %.1fs (%d evaluations, %d/%d obligations)' % (
             self.pid, 'OK' if rc == 0 else 'ALARM', time.time() - self.t0, self.evaluations,
